@@ -76,6 +76,10 @@ class MacroVisitor(ExplorerScriptVisitor):
     def visitMacrodef_children(self, macrodef_handler: MacroDefCompileHandler) -> ExplorerScriptMacro:
         """Visit the children of the macro def, after the macro resolution order has been processed"""
         self._root_handler = macrodef_handler
+        # Every macro needs its own source map. With a shared builder the macros of a file also shared their lists
+        # of position marks, and a macro calling another macro of the same file extended the list it was iterating.
+        self.source_map_builder = SourceMapBuilder()
+        self.compiler_ctx.source_map_builder = self.source_map_builder
         self.visitChildren(macrodef_handler.ctx)
 
         blueprints = self._root_handler.collect()
